@@ -79,7 +79,8 @@ PROPS = {
         'assumptions': ['the libraries behind the adapters (bbolt Cursor.Seek/Next/Prev/Last, badger Iterator) are modelled by their documented cursor semantics; the empty seek key is excluded (badger documents it as rewind; clover never seeks it)'],
     },
     'C16': {
-        'streams': [{'name': 'c16', 'quick': 400, 'thorough': 6000}, HIST('hist_index', 60, 600, ['--focus', 'index'])],
+        'streams': [{'name': 'c16', 'quick': 400, 'thorough': 6000}, HIST('hist_index', 60, 600, ['--focus', 'index']),
+                    {'name': 'twin', 'quick': 3, 'thorough': 30, 'args': ['--backend', 'all']}],
         'assumptions': ['literal-kind invariance under cmp_dom3 (no NaN; big integers not mixed with floats)'],
     },
     'C17': {
@@ -96,7 +97,7 @@ PROPS = {
     },
     'C20': {
         'streams': [HIST('hist', 100, 1200), HIST('hist_catalog', 50, 500, ['--focus', 'catalog']), HIST('hist_reopen', 20, 200, ['--backend', 'bbolt,badgerdisk', '--focus', 'reopen']),
-                    {'name': 'json', 'quick': 4, 'thorough': 40, 'args': ['--backend', 'all']}],
+                    {'name': 'json', 'quick': 4, 'thorough': 40, 'args': ['--backend', 'all']}, {'name': 'scale', 'quick': 1, 'thorough': 2, 'args': ['--backend', 'all']}],
         'assumptions': ['safety-only: the model is total and returns a declared result class for every operation; only panic sites the transcription makes explicit are covered by the theorem, the rest by recover() and deadlines around every public call in every stream'],
     },
 }
